@@ -114,8 +114,11 @@ def gen(seed, n_expr):
                 e = M.gen_poolsum(rng, [], M.FREE, rng.randint(1, 3), rng.randint(0, 2), [64],
                                   quirks=(kind == "quirk"))
             ops = ["doit", "evaluate", "free_symbols", "cleanup", "subs", "xreplace", "xreplace"]
-            if kind == "builder" or rng.random() < 0.5:
-                ops.append("unfold")  # HelicityModel.intensity is always a PoolSum
+            # HelicityModel.intensity is always a PoolSum.  Beyond nesting depth 2 the loop is incomplete and WHICH
+            # nodes survive depends on SymPy's automatic evaluation (a factor 0 makes whole sub-sums vanish
+            # from the tree), which the unevaluated model trees do not mirror: compared up to depth 2 only.
+            if (kind == "builder" or rng.random() < 0.5) and M.ps_depth(e) <= 2:
+                ops.append("unfold")
             if kind == "wrapped":
                 w = rng.choice([lambda t: t + sp.Symbol("x"), lambda t: 2 * t * sp.Symbol("i"),
                                 lambda t: sp.Function("f")(t, sp.Symbol("j")), lambda t: t ** 2])
